@@ -461,7 +461,7 @@ impl<'a> CompilerState<'a> {
                     }
                     Rule::quoted_string => {
                         // Create a temp variable pointing to this quoted_string
-                        let v = self.compile_quoted_string(primary);
+                        let v = self.compile_quoted_string(primary)?;
                         let mut l = literal_counter.lock().unwrap();
                         let name = format!("cctmp{}", l);
                         *l += 1;
@@ -622,7 +622,7 @@ impl<'a> CompilerState<'a> {
                     }
                     Rule::quoted_string => {
                         // Create a temp variable pointing to this quoted_string
-                        let v = self.compile_quoted_string(primary);
+                        let v = self.compile_quoted_string(primary)?;
                         let mut l = literal_counter.lock().unwrap();
                         let name = format!("cctmp{}", l);
                         *l += 1;
@@ -893,7 +893,7 @@ impl<'a> CompilerState<'a> {
             }
             Rule::asm_statement => {
                 let mut px = pair.into_inner();
-                let mut s = self.compile_quoted_string(px.next().unwrap());
+                let mut s = self.compile_quoted_string(px.next().unwrap())?;
                 let size = if let Some(x) = px.next() {
                     Some(self.parse_calc(x.into_inner())? as u32)
                 } else {
@@ -1565,7 +1565,7 @@ impl<'a> CompilerState<'a> {
                                                         v.push((s, offset));
                                                     }
                                                     Rule::quoted_string => {
-                                                        let k = self.compile_quoted_string(pxx);
+                                                        let k = self.compile_quoted_string(pxx)?;
                                                         let name = format!(
                                                             "cctmp{}",
                                                             self.literal_counter
@@ -1631,7 +1631,7 @@ impl<'a> CompilerState<'a> {
                                                 start,
                                             ));
                                         }
-                                        let string = self.compile_quoted_string(px);
+                                        let string = self.compile_quoted_string(px)?;
                                         let vb = string.as_bytes();
                                         let mut v = Vec::<VariableValue>::new();
                                         for c in vb.iter() {
@@ -2276,15 +2276,22 @@ impl<'a> CompilerState<'a> {
         value.ok_or_else(|| self.syntax_error("Invalid integer constant", pos))
     }
 
-    fn compile_quoted_string(&self, p: Pair<Rule>) -> String {
+    fn compile_quoted_string(&self, p: Pair<Rule>) -> Result<String, Error> {
         let mut v = String::new();
+        let pos = p.as_span().start();
         let it = p.into_inner();
         for i in it {
-            let j = i.as_str().parse::<usize>().unwrap();
-            v.push_str(&compile_quoted_string_ex(&self.context.literal_strings[j]));
+            // A literal marker typed in the source refers to no literal
+            let literal = i
+                .as_str()
+                .parse::<usize>()
+                .ok()
+                .and_then(|j| self.context.literal_strings.get(j))
+                .ok_or_else(|| self.syntax_error("Unknown string literal", pos))?;
+            v.push_str(&compile_quoted_string_ex(literal));
         }
         v.push(char::from_u32(0).unwrap());
-        v
+        Ok(v)
     }
 }
 
